@@ -72,17 +72,43 @@ Definition dir_lstat_size0 (o : op) (sr r : out) : bool :=
   | _, _, _ => false
   end.
 
+(* Corners of the directory-backed filesystem itself.
+   - Link: the disk side is link(2), which does not follow a symbolic link given
+     as the old name, the overlay does: the two halves disagree, and the error
+     precedence differs from the reference's.
+   - a handle on a directory is the host's *os.File: what lseek/read answer on
+     it is file-system specific and not part of the reference (not compared). *)
+Definition dir_corner (s : st) (o : op) : option string :=
+  match o with
+  | Link old _ =>
+      if eres_nat_eqb (s_lnode (heap s) old) (s_node (heap s) old) then None
+      else Some "dirfs-link-oldname-symlink-not-followed-on-disk"
+  | _ => None
+  end.
+Definition on_dir_handle (s : st) (o : op) : bool :=
+  match o with
+  | Read i _ | ReadAt i _ _ | Write i _ | Seek i _ _ =>
+      match nth_error (handles s) i with Some hd => h_open hd && is_dir (heap s) (h_ino hd) | None => false end
+  | _ => false
+  end.
+
+(* The hidden state of dirFS (overlay + disk) is known only while every step
+   has been inside the envelope: the sequence is judged up to and including
+   the first step outside it. *)
 Fixpoint check_dir_steps (s : st) (ops : list op) (obs : list out) : list string :=
   match ops, obs with
   | [], [] => []
   | o :: ops', r :: obs' =>
       let '(s1, sr) := spec_step s o in
-      if out_match sr r then check_dir_steps s1 ops' obs'
-      else if dir_lstat_size0 o sr r then "viol:dirfs-lstat-size-from-overlay" :: check_dir_steps s1 ops' obs'
-      else [match corner MemFS s o with
-            | Some t => String.append "viol:" t              (* inherited from the in-memory overlay *)
-            | None => "viol:dirfs-diverges-inside-envelope"
-            end]
+      if on_dir_handle s o then check_dir_steps s1 ops' obs'
+      else
+      match (match dir_corner s o with Some t => Some t | None => corner MemFS s o end) with
+      | Some t => if out_match sr r then [] else [String.append "viol:" t]
+      | None =>
+          if out_match sr r then check_dir_steps s1 ops' obs'
+          else if dir_lstat_size0 o sr r then "viol:dirfs-lstat-size-from-overlay" :: check_dir_steps s1 ops' obs'
+          else ["viol:dirfs-diverges-inside-envelope"]
+      end
   | _, _ => ["mismatch:observation-count"]
   end.
 
